@@ -107,6 +107,12 @@ func runC17(c *Ctx) {
 	c.Doc("R17.4", "the author argument of every editing call is the gate's result; every editor call is followed by Commit on all paths to a success return; Snapshot() for the payload is taken after the commit")
 	c.Doc("R17.5", "a scalar decoder must not assert v.(B) on the path where its own check v.(A) succeeded for a different concrete type A")
 
+	// what "records exactly the requested change … the returned bug reflects it" rests on below the resolvers
+	checkHashIsValidCanonical(c, "R7.12")
+	checkApplyTable(c)
+	checkApplyUnconditional(c)
+	checkMutatorLocksPaired(c)
+
 	rms := w.resolverMethods()
 	if len(rms) == 0 {
 		c.Undecided("R17.1", "anchor:graph.*Resolver", "api/graphql/graph", "no resolver interfaces/implementations found")
@@ -637,4 +643,36 @@ func checkSentinelAgreementAndStaging(c *Ctx) {
 	if n < 8 {
 		c.Violate("R17.7", "expected:editing-functions", "entities/bug", fmt.Sprintf("%d operation-appending functions found (reference 10)", n))
 	}
+}
+
+
+// checkMutatorLocksPaired (R18.1 restricted to package cache): a refused mutation must leave the bug
+// usable — an editing method of the cache that returns with its mutex held makes every later query
+// and mutation on that bug hang.
+func checkMutatorLocksPaired(c *Ctx) {
+	w := c.W
+	lw := newLockWorld(w)
+	c.Doc("R18.1", "every Lock/RLock taken by a function of package cache is released on every exit of the function (the editing methods the mutation resolvers call; an error exit that keeps the mutex blocks every later request on that bug)")
+	exemptHold := map[string]bool{"cache.CachedEntityBase.Lock": true, "cache.IdentityCache.Lock": true}
+	n := 0
+	for _, fn := range w.ModFns {
+		if isInstance(fn) || w.isTestHelper(fn) || fnPkgPath(fn) != modPath+"/cache" {
+			continue
+		}
+		li := lw.info(fn)
+		if li.NOps == 0 || exemptHold[funcName(fn)] {
+			continue
+		}
+		n++
+		c.Sites += li.NOps
+		c.seeFn(funcName(fn))
+		if len(li.Findings) == 0 {
+			c.Hold("R18.1", funcName(fn), w.FnPos(fn), fmt.Sprintf("%d lock operations paired on all paths", li.NOps))
+			continue
+		}
+		for _, f := range li.Findings {
+			c.Violate("R18.1", funcName(fn)+":"+lockFindingKey(f.What), f.Pos, f.What)
+		}
+	}
+	c.Check(n >= 30, "R18.1", "expected:cache-lock-functions", "cache", fmt.Sprintf("%d functions of package cache with lock operations", n), fmt.Sprintf("only %d functions with lock operations found in package cache (reference ≥ 30)", n))
 }
